@@ -76,7 +76,7 @@ def iter_loop(eng, s, it, st, fr, k, enum_start=None):
         L._body_ensures(eng, spec, s2, fr, {"k_": kk, "n_": total}, pre, s)
         L._ghost_frame(eng, sh_it, s2, ordinal, pre, s)
         eng.canary(f"{pre}:body-end", s2, s)
-    fr_body = fr.with_(brk=lambda s2: k(s2), cont=body_end)
+    fr_body = fr.with_(brk=L.brk_of(eng, spec, pre, k, s), cont=body_end)
     elem = Opq(z3.Select(seq, pos0 + kk))
     if enum_start is not None:
         elem = (z3.simplify(eng.to_int(enum_start) + kk), elem)
